@@ -365,7 +365,7 @@ NOT_CONNECTED = [('C13', 'only-when-not-available', 'not old(self._available)'),
                  ('C13', 'not-a-byte-written', 'G.wire == old(G.wire) and G.nwrites == old(G.nwrites)'),
                  ('C13', 'no-local-file-created', 'G.files_opened == old(G.files_opened)'),
                  ('C13', 'nothing-read-no-stream-opened', 'G.rpos == old(G.rpos) and self._local_id == old(self._local_id) and G.di == old(G.di)'),
-                 RELEASED]
+                 RELEASED, MONO]
 
 
 def op_raises(extra=()):
